@@ -262,12 +262,19 @@ class Legit:
             return self.last                 # the answer never came (send failure): retransmit
         if not self.queue:
             if self.stage == 0:
-                self.queue.append(bytes(w.acquire('B', sport=0, dport=0)))
+                req = w.acquire('B', sport=0, dport=0)
+                if req is None:               # an IKE_SA with the daemon already exists (the daemon started one): the ACQUIRE rides on it
+                    self.stage = 1
+                    return None
+                self.queue.append(bytes(req))
             elif self.stage == 1:
                 sas = [s for s in w.sas('B') if s.state == IkeSa.State.ESTABLISHED and s.child_sas]
                 if not sas:
                     return None
-                self.queue.append(bytes(w.expire('B', bytes(sas[0].child_sas[0].inbound_spi), False)))
+                req = w.expire('B', bytes(sas[0].child_sas[0].inbound_spi), False)
+                if req is None:               # B is busy with an exchange the daemon started: the expire is queued there, try again on the next turn
+                    return None
+                self.queue.append(bytes(req))
             elif self.stage == 2:
                 # the session is complete (IKE_SA, CHILD_SA, one rekey): remember that, then B closes the IKE_SA (the daemon tears it down with its CHILD_SA)
                 sas = [s for s in w.sas('B') if s.state == IkeSa.State.ESTABLISHED]
@@ -275,12 +282,16 @@ class Legit:
                     return None
                 self.completed = True
                 sas[0].delete_ike_sa_at = w.now - 1
-                self.queue.append(bytes(w.timer('B', sas[0], 'check_rekey_ike_sa_timer')))
+                req = w.timer('B', sas[0], 'check_rekey_ike_sa_timer')
+                if req is None:
+                    self.completed = False
+                    return None
+                self.queue.append(bytes(req))
             else:
                 return None
             self.stage += 1
         self.last = self.queue.pop(0)
-        self.answered = False
+        self.answered = bool(W.dec_header(self.last)['response'])      # B's own responses (to requests the daemon started) wait for nothing
         return self.last
 
     def established(self):
@@ -377,6 +388,9 @@ def hostile_event(kind, loop, rnd, prepared=False):
         if kind == 'wrong_spi_clear':
             return udp(W.enc_header(b'\x5a' * 8, sa_b.spi_r, 0, 2, 0, rnd.choice((35, 36, 37)), 0x08, mid, 28))
         return udp(probes.seal(sa_b, 37, False, mid, [], spi_i=b'\x5a' * 8))
+    if kind == 'acquire_legit_peer':
+        # the kernel asks for an SA towards the legitimate peer at whatever moment: half-open responder IKE_SA, exchange in progress, rekeyed IKE_SA ...
+        return {'type': 'xfrm', 'name': kind, 'data': fakekernel.enc_acquire(wd.addr_of('A'), wd.addr_of('B'), wd.addr_of('A'), wd.addr_of('B'), 0, 0, 6, (1 << 3) | 1)}
     if kind == 'acquire_silent_peer':
         return {'type': 'xfrm', 'name': kind, 'data': fakekernel.enc_acquire(wd.addr_of('A'), wd.addr_of('C'), wd.addr_of('A'), wd.addr_of('C'), 0, 80, 6, (7 << 3) | 1)}
     if kind == 'half_open_wrong_spi':
@@ -420,7 +434,7 @@ def hostile_event(kind, loop, rnd, prepared=False):
 KINDS = ('short', 'garbage', 'unconfigured_src', 'init_existing_spi', 'unknown_exchange', 'unknown_spi', 'binary_vendor', 'auth_malformed', 'bad_checksum',
          'loop_payload', 'delete_many', 'acquire_unconfigured', 'acquire_unknown_index', 'expire_unknown_spi', 'netlink_truncated', 'netlink_unknown_type',
          'control', 'send_gaierror', 'send_oserror', 'tick', 'wrong_spi_sealed', 'wrong_spi_clear', 'acquire_silent_peer', 'half_open_wrong_spi', 'netlink_fail_delsa', 'netlink_fail_newsa',
-         'half_open_unknown_exchange_x2', 'unknown_exchange_sealed_x2', 'unknown_exchange_x2', 'garbage_x2', 'wrong_spi_sealed_x2', 'auth_malformed_x2')
+         'acquire_legit_peer', 'half_open_unknown_exchange_x2', 'unknown_exchange_sealed_x2', 'unknown_exchange_x2', 'garbage_x2', 'wrong_spi_sealed_x2', 'auth_malformed_x2')
 
 
 class Lazy(dict):
@@ -435,7 +449,9 @@ def run_behaviour(kinds_sequence, seed, rnd):
         script.append({'type': 'legit'} if k == 'legit' else {'type': 'lazy', 'kind': k})
     loop.rnd = rnd
     # closing: retransmissions of whatever the legitimate peer still waits for, then a status query
-    tail = [{'type': 'legit'}] * 4 + [{'type': 'control', 'name': 'final-status'}]
+    # (time passes, too: a request of the daemon whose transmission was made to fail goes out again when its retransmission timer fires)
+    tick = {'type': 'tick', 'name': 'tick', 'dt': 1.0}
+    tail = [{'type': 'legit'}] * 3 + [tick] * 3 + [{'type': 'legit'}] * 3 + [tick] * 5 + [{'type': 'legit'}] * 4 + [{'type': 'control', 'name': 'final-status'}]
     try:
         ex = loop.run(script + tail)
         return loop, ex
